@@ -281,7 +281,7 @@ def shard(ctx):
                                           {"rules": text, "data": DOCS, "law": "call", "expected": list(exp)})
 
     # ---- random clauses on random documents (equivalence laws only; flip law when a plain key path hits a scalar)
-    n = 300 if ctx.quick else 12000
+    n = 300 if ctx.quick else 60000
     rng = ctx.rng("rand")
     o = gen.Opts(some=True, prefix_not=False, rhs_query=True)
     for t in range(n):
